@@ -9,20 +9,21 @@ CONFIG = {
         "case_type": "case", "ops_path": None, "mismatch_is_violation": False,
         "n_quick": 900, "n_thorough": 12000, "shard": 150,
     }],
-    "rule": "scripted battles on the REAL simulation.Simulation: 1-4 registered harness characters (4 kinds: speeds, SP "
-            "costs, target types), 1-5 harness enemies (HP 50-400, speeds incl. ties), 5-14 content scripts of engine calls "
+    "rule": "scripted battles on the REAL simulation.Simulation: 1-4 registered harness characters (6 kinds: speeds, SP "
+            "costs, target types, a Skill.CanUse / Ult.CanUse check of their own), 1-5 harness enemies (HP 50-400, speeds incl. ties), 5-14 content scripts of engine calls "
             "(attacks qualified/unqualified with lethal and scratch damage on any unit incl. dead and unknown ids, SetHP, "
             "insert abilities with real priorities and abort flags, extra actions, energy, SP, flag modifiers, gauge "
             "changes, revive switches, samples of Characters()/Enemies()/turn order), per-unit action queues, listener "
-            "slots (BattleStart, ActionEnd, HitEnd, TargetDeath, LimboWaitHeal verdict), decision sequences of the "
+            "slots (BattleStart, ActionEnd, HitEnd, TargetDeath, HPChange, AttackStart, the OnPhase1 / OnPhase2 modifier "
+            "ticks, LimboWaitHeal verdict), decision sequences of the "
             "script callbacks incl. invalid targets and ult requests, cycle limit 0-4, insert budget 0-12; distinct = "
             "distinct input term",
     "trusted": ["hits of harness content are 'plain' (no DEF/RES/stance/shield/crit), so a hit's total is its flat damage; the "
                 "damage formula itself is C04",
                 "listener scripts never open or close an attack bracket (legal use of the API, enforced by the model as a "
-                "distinct outcome and respected by the generator)",
+                "distinct outcome and respected by the generator); they may add hits to an attack that is open",
                 "the turn manager part is Model/Turn.v at binary64 (property C02)"],
-    "assumptions": ["content uses the engine API legally: qualified attacks and EndAttack only from action / ult / insert bodies"],
+    "assumptions": ["content uses the engine API legally: an attack bracket is opened (first qualified attack) and closed (EndAttack) only from action / ult / insert bodies"],
     "manifest": {
         "level_text": "Kernel-checked theorem: every terminated run of the executable whole-simulation model (all configs, all "
                       "content scripts, all decision sequences, all fuel) produces a trace accepted by the lifecycle-protocol "
